@@ -277,13 +277,27 @@ def prepare_bundle(keys, kernel_name, dim, first, stats):
                                      m.ref_kernel.radius_scale)
         m.ref = RefEval(m.ref_arrays, [Group(equations=[m.ref_eq])],
                         m.ref_kernel, m.ref_nnps)
-        try:
-            m.ref.compute(first['t'], first['dt'])
-        except RefUndefined as ex:
-            skipped[key] = 'reference undefined: %s' % str(ex)[:200]
-            continue
-        except Exception as ex:
-            skipped[key] = 'reference failed: %r' % (ex,)
+        # membership is decided on the first data set and two variants of it
+        # (signs flipped, tables reversed) that reach other branches
+        probes = [first,
+                  dict(first, gen=[-g for g in first['gen']]),
+                  dict(first, gen=first['gen'][::-1], pos=first['pos'][::-1],
+                       coord=first['coord'][::-1])]
+        why = None
+        for pr in probes:
+            jit.load_data(m.ref_arrays, member_specs(m, dim, pr))
+            m.ref_nnps.update_domain()
+            m.ref_nnps.update()
+            try:
+                m.ref.compute(pr['t'], pr['dt'])
+            except RefUndefined as ex:
+                why = 'reference undefined: %s' % str(ex)[:200]
+                break
+            except Exception as ex:
+                why = 'reference failed: %r' % (ex,)
+                break
+        if why:
+            skipped[key] = why
             continue
         m.cmp_eq, _ = C.instantiate(cls, m.dn, m.sources, dim, alt=alt)
         members.append(m)
@@ -321,6 +335,29 @@ def run_bundle_data(members, ev, dim, kernel_name, data):
         specs = member_specs(m, dim, data)
         jit.load_data(m.ref_arrays, specs)
         jit.load_data(m.cmp_arrays, specs)
+    # The reference runs first, for every member: compiled code is executed
+    # only on data for which the Python meaning of every class in the bundle
+    # is defined (an index outside its array is undefined in Python and a
+    # wild read or write in C).
+    before_all, undefined = {}, {}
+    for m in members:
+        before_all[m.key] = [
+            dict((p, a.get_carray(p).get_npy_array().copy())
+                 for p in a.properties) for a in m.ref_arrays]
+        m.ref_nnps.update_domain()
+        m.ref_nnps.update()
+        m.ref.pair_calls = 0
+        try:
+            m.ref.compute(data['t'], data['dt'])
+        except RefUndefined as ex:
+            undefined[m.key] = 'ref_undefined'
+        except Exception as ex:
+            undefined[m.key] = 'ref_failed'
+    if undefined:
+        for m in members:
+            out.append((m, [], ['shipped', 'bundle_not_run',
+                                undefined.get(m.key, 'ref_defined')], False))
+        return out
     ev.update()
     try:
         ev.evaluate(data['t'], data['dt'])
@@ -335,19 +372,7 @@ def run_bundle_data(members, ev, dim, kernel_name, data):
             out.append((m, [Failure('shipped', 'exception', repr(cerr),
                                     kl)], labels, False))
             continue
-        before = [dict((p, a.get_carray(p).get_npy_array().copy())
-                       for p in a.properties) for a in m.ref_arrays]
-        m.ref_nnps.update_domain()
-        m.ref_nnps.update()
-        m.ref.pair_calls = 0
-        try:
-            m.ref.compute(data['t'], data['dt'])
-        except RefUndefined as ex:
-            out.append((m, [], labels + ['ref_undefined'], False))
-            continue
-        except Exception as ex:
-            out.append((m, [], labels + ['ref_failed'], False))
-            continue
+        before = before_all[m.key]
         bitwise = m.arith
         labels.append('bitwise' if bitwise else 'tolerance')
         if m.strided:
